@@ -538,6 +538,34 @@ def _pjoin(a: str, b: str) -> str:
     return "other"
 
 
+def _bind_iter(target, it, env: Dict[str, str], out: Dict[str, str]) -> None:
+    """provenance of the loop / comprehension variables from what is iterated: the values of the mapping are the caller's, the
+    elements of a sequence have the sequence's provenance (zip: position by position); anything else that mentions a value with
+    row labels is 'unknown' — never silently 'other'"""
+    names = [x for x in ast.walk(target) if isinstance(x, ast.Name)]
+    if isinstance(it, ast.Call) and isinstance(it.func, ast.Attribute) and it.func.attr in ("items", "values") and not it.args:
+        if it.func.attr == "values" and isinstance(target, ast.Name):
+            out[target.id] = "caller"
+        elif it.func.attr == "items" and isinstance(target, ast.Tuple) and len(target.elts) == 2 and isinstance(target.elts[1], ast.Name):
+            out[target.elts[1].id] = "caller"
+        return
+    if isinstance(it, ast.Call) and isinstance(it.func, ast.Name) and it.func.id == "zip" and isinstance(target, ast.Tuple) and \
+            len(target.elts) == len(it.args) and not it.keywords:
+        for t, a in zip(target.elts, it.args):
+            if isinstance(t, ast.Name):
+                if isinstance(a, ast.Call) and isinstance(a.func, ast.Attribute) and a.func.attr == "values" and not a.args:
+                    out[t.id] = "caller"
+                else:
+                    out[t.id] = prov(a, env)
+        return
+    if isinstance(it, ast.Name) and isinstance(target, ast.Name):
+        out[target.id] = env.get(it.id, "other")
+        return
+    tainted = any(env.get(x.id) in ("foreign", "caller", "unknown") for x in ast.walk(it) if isinstance(x, ast.Name))
+    for x in names:
+        out[x.id] = "unknown" if tainted else out.get(x.id, "other")
+
+
 def prov(e, env: Dict[str, str]) -> str:
     """'foreign' | 'stripped' | 'other' for an expression in cast()."""
     if isinstance(e, ast.Name):
@@ -552,6 +580,17 @@ def prov(e, env: Dict[str, str]) -> str:
         if nm and a == "stripped" and isinstance(e.orelse, ast.Name) and e.orelse.id == nm:
             return "stripped"       # `x.to_numpy() if isinstance(x, pd.Series) else x`: what is left is not a Series
         return _pjoin(a, b)
+    if isinstance(e, (ast.ListComp, ast.GeneratorExp)) and len(e.generators) == 1:
+        # a list of looked-up values: each element has the provenance of the element expression
+        g = e.generators[0]
+        env2 = dict(env)
+        _bind_iter(g.target, g.iter, env, env2)
+        return prov(e.elt, env2)
+    if isinstance(e, (ast.List, ast.Tuple)) and e.elts:
+        out = "other"
+        for x in e.elts:
+            out = _pjoin(out, prov(x.value if isinstance(x, ast.Starred) else x, env))
+        return out
     if isinstance(e, ast.Call):
         # wrappers such as pd.Series(x) keep the index
         ps = [prov(a, env) for a in e.args]
@@ -593,10 +632,8 @@ def rule_r8(ctx) -> List[R.Inst]:
                         env[k] = _pjoin(a, b)
             elif isinstance(s, (ast.For, ast.While)):
                 # `for to_, from_ in mapping.items()`: the values are whatever the call sites put into the mapping
-                if isinstance(s, ast.For) and isinstance(s.iter, ast.Call) and isinstance(s.iter.func, ast.Attribute) and \
-                        s.iter.func.attr == "items" and isinstance(s.target, ast.Tuple) and len(s.target.elts) == 2 and \
-                        isinstance(s.target.elts[1], ast.Name):
-                    env[s.target.elts[1].id] = "caller"
+                if isinstance(s, ast.For):
+                    _bind_iter(s.target, s.iter, env, env)
                 run(s.body, env)
                 run(s.body, env)
             elif isinstance(s, ast.Expr):
